@@ -178,8 +178,10 @@ R_HSTSOwn(c, o) ==
    (c.secure /\ c.ovr # "hsts") => o.hdr["HSTS"] = <<"own">>
 \* "a plain-HTTP request is redirected to https on the same host with the same (decoded) path and query"
 PlainHTTP(c) == c.xfp \in {"none", "http", "junk"}
+\* (the statement says "redirected", not which redirect: 301 today; 302 / 303 / 307 / 308 are redirects too)
+RedirectStatuses == {301, 302, 303, 307, 308}
 R_HTTPSUpgrade(c, o) ==
-   (c.secure /\ PlainHTTP(c)) => (o.status = 301 /\ o.loc = UpgradeLoc)
+   (c.secure /\ PlainHTTP(c)) => (o.status \in RedirectStatuses /\ o.loc = UpgradeLoc)
 \* "Session and CSRF cookies are always set with the configured Secure and HttpOnly flags, path /, and
 \*  the request host or configured domain"
 R_CookieFlags(c, o) ==
